@@ -182,7 +182,7 @@ func (pc *pathChecker) callPath(call *ssa.Call, fn *ssa.Function, at *ssa.BasicB
 		okAbs := guardedBy(fn, at, func(f condFact) bool {
 			if c2, ok := f.V.(*ssa.Call); ok && f.Val {
 				if cc := staticCallee(c2); cc != nil && qualFn(cc) == "strings.HasPrefix" {
-					if s, ok := constStr(c2.Call.Args[1]); ok && s == "/" && c2.Call.Args[0] == ssa.Value(call) {
+					if s, ok := constStr(argN(c2, 1)); ok && s == "/" && c2.Call.Args[0] == ssa.Value(call) {
 						return true
 					}
 				}
@@ -305,7 +305,7 @@ func rejectEdgeOK(p *Prog, b *ssa.BasicBlock, errStyle bool) bool {
 				}
 				if call, ok := retVal(r, 0).(*ssa.Call); ok {
 					if f := staticCallee(call); f != nil && strings.HasPrefix(f.Name(), "nfsError") {
-						k, isC := constInt(call.Call.Args[1])
+						k, isC := constInt(argN(call, 1))
 						return isC && k != 0
 					}
 				}
@@ -359,10 +359,10 @@ func stringsCallWith(cond ssa.Value, subject ssa.Value, fns []string, needle fun
 	if !found || len(call.Call.Args) < 2 || call.Call.Args[0] != subject {
 		return false
 	}
-	if s, ok := constStr(call.Call.Args[1]); ok {
+	if s, ok := constStr(argN(call, 1)); ok {
 		return needle(s)
 	}
-	if k, ok := constInt(call.Call.Args[1]); ok { // rune
+	if k, ok := constInt(argN(call, 1)); ok { // rune
 		return needle(string(rune(k)))
 	}
 	return false
@@ -482,10 +482,10 @@ func runValidatorTable(c *Ctx) {
 		if call, ok := cond.(*ssa.Call); ok {
 			if f := staticCallee(call); f != nil && strings.HasPrefix(qualFn(f), "strings.Contains") {
 				isNul := false
-				if k, ok := constInt(call.Call.Args[1]); ok && k == 0 {
+				if k, ok := constInt(argN(call, 1)); ok && k == 0 {
 					isNul = true
 				}
-				if s, ok := constStr(call.Call.Args[1]); ok && s == "\x00" {
+				if s, ok := constStr(argN(call, 1)); ok && s == "\x00" {
 					isNul = true
 				}
 				if isNul && rejectEdgeOK(p, b.Succs[0], true) {
@@ -601,8 +601,11 @@ func runSymlinkRule(c *Ctx, ent *entries, reach map[*ssa.Function]bool) {
 						return false
 					}
 					cc := staticCallee(c2)
-					s, _ := constStr(c2.Call.Args[1])
-					return cc != nil && qualFn(cc) == "strings.HasPrefix" && c2.Call.Args[0] == target && s == "/"
+					if cc == nil || qualFn(cc) != "strings.HasPrefix" || len(c2.Call.Args) < 2 {
+						return false
+					}
+					s, _ := constStr(argN(c2, 1))
+					return c2.Call.Args[0] == target && s == "/"
 				})
 				if abs {
 					continue
@@ -672,7 +675,7 @@ func checkSymlinkTarget(p *Prog, reach map[*ssa.Function]bool, v ssa.Value, fn *
 		if cc == nil || qualFn(cc) != "strings.HasPrefix" || c2.Call.Args[0] != v {
 			return false
 		}
-		s, _ := constStr(c2.Call.Args[1])
+		s, _ := constStr(argN(c2, 1))
 		return s == "/"
 	})
 	if !notAbs {
